@@ -88,10 +88,12 @@ def many_entities(n):
 def modules(rng, tier):
     """[(label, bytes, [option lists])]"""
     out = []
-    sizes = [(9, 0), (12, 0), (33, 3), (300, 7)] if tier == "quick" else [(9, 0), (10, 2), (12, 0), (33, 3), (300, 7), (3000, 40), (20000, 1)]
+    sizes = [(9, 0), (12, 0), (33, 3), (300, 7)] if tier == "quick" else [(9, 0), (10, 2), (12, 0), (33, 3), (300, 7), (3000, 40), (8000, 1)]
     for n, ni in sizes:
         for style in ("dense", "sparse", "last-only", "unordered", "duplicates"):
             if tier == "quick" and n > 40 and style in ("last-only", "duplicates"):
+                continue
+            if n > 3000 and style not in ("dense", "sparse"):       # the Lean model's de-duplication is quadratic
                 continue
             opts = G_OPTS[: (2 if n > 40 else 4)] + [[]]
             out.append((f"named:{n}+{ni}:{style}", named(rng, n, ni, style), opts))
